@@ -378,7 +378,7 @@ def replay(o):
 
 
 INFO = dict(
-    assumptions=A.S_COMMON, trusted_base=A.TRUSTED, min_obligations=300, level="other",
+    assumptions=A.S_COMMON + [A.A13], trusted_base=A.TRUSTED, min_obligations=300, level="other",
     explanation="C02: Function(U)[i, j](u) against the Cox-de Boor spec for every j <= p; index validation proved unbounded by engine V; "
                 "non-negativity, support and partition of unity are proved on the spec per shape and transfer through the equality contract.",
     functions=["functions.IndexableFunction.__valid_first_index (V)", "functions.IndexableFunction.__valid_second_index (V)",
